@@ -1146,6 +1146,19 @@ func runRows() {
 	}
 	l.Merge()
 	chk.Sample("row", rcase{Kind: "row", Target: "Code39+ext", Bits: "(Code 39 symbol for \"A+\")"})
+	// every three-digit number-system prefix: the readers look the prefix of a successfully read
+	// EAN-13 / UPC-A number up in a table of issuing organisations (result metadata)
+	chk.Range("all row decoders on valid EAN-13 symbols with EVERY three-digit prefix 000..999 (two bodies each), scale 1", 1000,
+		func(i int) string { return fmt.Sprintf("prefix %03d", i) },
+		func(l *mc.Local, i int) {
+			for _, body := range []string{"000000000", "123456789"} {
+				m, err := oned.NewEAN13Writer().Encode(fmt.Sprintf("%03d%s", i, body), gozxing.BarcodeFormat_EAN_13, 0, 0, nil)
+				if err != nil {
+					return
+				}
+				decodeRowAll(l, firstRow(m), "prefix", "*")
+			}
+		})
 }
 
 // ------------------------------------------------------------------ image readers
